@@ -5,7 +5,7 @@
 -/
 namespace Layer
 
-abbrev Dec := Int
+-- (a `Dec` is just an `Int`: the raw value; no type alias, so that `omega` sees through)
 
 namespace Dec
 
@@ -24,31 +24,31 @@ def chopRoundNonneg (d : Int) : Int :=
 def chopRound (d : Int) : Int :=
   if d < 0 then - chopRoundNonneg (-d) else chopRoundNonneg d
 
-def ofInt (n : Int) : Dec := n * prec
+def ofInt (n : Int) : Int := n * prec
 
 /-- `LegacyDec.Mul` -/
-def mul (a b : Dec) : Dec := chopRound (a * b)
+def mul (a b : Int) : Int := chopRound (a * b)
 
 /-- `LegacyDec.Quo` (caller guarantees `b ≠ 0`; Go panics on zero) -/
-def quo (a b : Dec) : Dec := chopRound (Int.tdiv (a * prec * prec) b)
+def quo (a b : Int) : Int := chopRound (Int.tdiv (a * prec * prec) b)
 
 /-- `LegacyDec.MulTruncate` -/
-def mulTruncate (a b : Dec) : Dec := Int.tdiv (a * b) prec
+def mulTruncate (a b : Int) : Int := Int.tdiv (a * b) prec
 
 /-- `LegacyDec.QuoTruncate` -/
-def quoTruncate (a b : Dec) : Dec := Int.tdiv (Int.tdiv (a * prec * prec) b) prec
+def quoTruncate (a b : Int) : Int := Int.tdiv (Int.tdiv (a * prec * prec) b) prec
 
 /-- `LegacyDec.TruncateInt` -/
-def truncateInt (a : Dec) : Int := Int.tdiv a prec
+def truncateInt (a : Int) : Int := Int.tdiv a prec
 
 /-- `LegacyDec.RoundInt` -/
-def roundInt (a : Dec) : Int := chopRound a
+def roundInt (a : Int) : Int := chopRound a
 
 /-- `LegacyDec.MulInt` -/
-def mulInt (a : Dec) (n : Int) : Dec := a * n
+def mulInt (a : Int) (n : Int) : Int := a * n
 
 /-- `LegacyDec.QuoInt` -/
-def quoInt (a : Dec) (n : Int) : Dec := Int.tdiv a n
+def quoInt (a : Int) (n : Int) : Int := Int.tdiv a n
 
 end Dec
 
